@@ -13,7 +13,7 @@ use swift_mt_message::headers::{ApplicationHeader, BasicHeader, Trailer, UserHea
 use swift_mt_message::{ParseError, SwiftField, SwiftMessageBody, SwiftParser};
 
 #[derive(Default)]
-struct Tally { evals: u64, oks: u64, errs: u64, panics: BTreeMap<String, (String, String)> /* key -> (what, input) */, entries: std::collections::BTreeSet<String> }
+struct Tally { evals: u64, oks: u64, errs: u64, panics: BTreeMap<String, (String, String)> /* key -> (what, input) */, entries: std::collections::BTreeSet<String>, buckets: std::collections::BTreeSet<String> }
 impl Tally {
     fn panic(&mut self, entry: &str, loc: &str, input: &str) {
         // key = panic site + coarse class of the entry point (the same site is reached through many entries)
@@ -41,7 +41,7 @@ fn on_message<T: SwiftMessageBody + serde::de::DeserializeOwned>(m: &swift_mt_me
 fn message_entries(s: &str, t: &mut Tally, typed: &[&str]) {
     t.evals += 1;
     match guarded(|| SwiftParser::parse_auto(s)) {
-        Ok(Ok(p)) => { t.oks += 1; if let Err(l) = guarded(|| { let _ = p.validate(); let _ = p.message_type(); let _ = serde_json::to_value(&p); }) { t.panic("parse_auto:on-value", &l, s); } }
+        Ok(Ok(p)) => { t.oks += 1; t.buckets.insert(format!("parse_auto:{}:value", p.message_type())); if let Err(l) = guarded(|| { let _ = p.validate(); let _ = p.message_type(); let _ = serde_json::to_value(&p); }) { t.panic("parse_auto:on-value", &l, s); } }
         Ok(Err(e)) => { t.errs += 1; render_err(&e, s, t, "parse_auto"); }
         Err(l) => t.panic("SwiftParser::parse_auto", &l, s),
     }
@@ -120,7 +120,7 @@ fn field_entries(s: &str, t: &mut Tally) {
             for variant in [None, Some("A")] {
                 let r = if variant.is_none() { guarded(|| <T as SwiftField>::parse(s)) } else { guarded(|| <T as SwiftField>::parse_with_variant(s, variant, None)) };
                 match r {
-                    Ok(Ok(f)) => { t.oks += 1; if let Err(l) = guarded(|| { let _ = f.to_swift_string(); let _ = f.get_variant_tag(); if let Ok(j) = serde_json::to_value(&f) { let _ = serde_json::from_value::<T>(j); } }) { t.panic(&format!("{ty}:on-value"), &l, s); } }
+                    Ok(Ok(f)) => { t.oks += 1; t.buckets.insert(format!("{ty}:value")); if let Err(l) = guarded(|| { let _ = f.to_swift_string(); let _ = f.get_variant_tag(); if let Ok(j) = serde_json::to_value(&f) { let _ = serde_json::from_value::<T>(j); } }) { t.panic(&format!("{ty}:on-value"), &l, s); } }
                     Ok(Err(e)) => { t.errs += 1; if t.evals % 64 == 0 { render_err(&e, s, t, ty); } }
                     Err(l) => t.panic(&format!("{ty}::parse"), &l, s),
                 }
@@ -267,8 +267,8 @@ fn child(ctx: &Ctx, k: usize, n: usize) -> i32 {
                 helper_entries(m, &mut t);
                 with_field!(kd.ty, T => {
                     match guarded(|| <T as SwiftField>::parse(m)) {
-                        Ok(Ok(f)) => { t.oks += 1; if let Err(l) = guarded(|| { let _ = f.to_swift_string(); if let Ok(j) = serde_json::to_value(&f) { let _ = serde_json::from_value::<T>(j); } }) { t.panic(&format!("{}:on-value", kd.ty), &l, m); } }
-                        Ok(Err(_)) => { t.errs += 1; }
+                        Ok(Ok(f)) => { t.oks += 1; t.buckets.insert(format!("{}:value", kd.ty)); if let Err(l) = guarded(|| { let _ = f.to_swift_string(); if let Ok(j) = serde_json::to_value(&f) { let _ = serde_json::from_value::<T>(j); } }) { t.panic(&format!("{}:on-value", kd.ty), &l, m); } }
+                        Ok(Err(_)) => { t.errs += 1; t.buckets.insert(format!("{}:error", kd.ty)); }
                         Err(l) => t.panic(&format!("{}::parse", kd.ty), &l, m),
                     }
                 }, else => {});
@@ -288,7 +288,7 @@ fn child(ctx: &Ctx, k: usize, n: usize) -> i32 {
         }
     }
     t.entries.insert("field-instances".into());
-    let out = json!({"evals": t.evals, "oks": t.oks, "errs": t.errs, "panics": t.panics.iter().map(|(k, (w, i))| json!({"key": k, "what": w, "input": i})).collect::<Vec<_>>(), "cases": idx});
+    let out = json!({"buckets": t.buckets, "evals": t.evals, "oks": t.oks, "errs": t.errs, "panics": t.panics.iter().map(|(k, (w, i))| json!({"key": k, "what": w, "input": i})).collect::<Vec<_>>(), "cases": idx});
     match std::env::var("VERIF_C07_OUT") { Ok(p) => { let _ = std::fs::write(p, format!("CHILD-RESULT {out}\n")); } Err(_) => println!("CHILD-RESULT {out}") }
     0
 }
@@ -320,7 +320,7 @@ pub fn run(ctx: &Ctx) -> i32 {
     let tmpdir = crate::verif_dir().join("harness").join("target").join(format!("c07-{}", std::process::id()));
     let _ = std::fs::create_dir_all(&tmpdir);
     let children: Vec<_> = (0..n).map(|k| std::process::Command::new(&exe).args(["C07", &ctx.tier]).env("VERIF_C07_CHILD", format!("{k}/{n}")).env("VERIF_C07_OUT", tmpdir.join(format!("{k}.json"))).stdout(std::process::Stdio::null()).stderr(std::process::Stdio::null()).spawn().expect("spawn child")).collect();
-    let mut col = Collector::new(); let (mut evals, mut oks, mut errs, mut cases) = (0u64, 0u64, 0u64, 0u64);
+    let mut col = Collector::new(); let mut all_buckets: std::collections::BTreeSet<String> = Default::default(); let (mut evals, mut oks, mut errs, mut cases) = (0u64, 0u64, 0u64, 0u64);
     let budget = std::time::Duration::from_secs(if ctx.thorough { 1500 } else { 240 });
     let t0 = Instant::now();
     for (k, mut c) in children.into_iter().enumerate() {
@@ -333,7 +333,7 @@ pub fn run(ctx: &Ctx) -> i32 {
         match (status, line) {
             (Some(s), Some(l)) if s.success() => {
                 let v: Value = serde_json::from_str(&l[13..]).unwrap_or(Value::Null);
-                evals += v["evals"].as_u64().unwrap_or(0); oks += v["oks"].as_u64().unwrap_or(0); errs += v["errs"].as_u64().unwrap_or(0); cases = v["cases"].as_u64().unwrap_or(0);
+                for b in v["buckets"].as_array().cloned().unwrap_or_default() { if let Some(b) = b.as_str() { all_buckets.insert(b.to_string()); } } evals += v["evals"].as_u64().unwrap_or(0); oks += v["oks"].as_u64().unwrap_or(0); errs += v["errs"].as_u64().unwrap_or(0); cases = v["cases"].as_u64().unwrap_or(0);
                 for p in v["panics"].as_array().cloned().unwrap_or_default() {
                     let (key, what, input) = (p["key"].as_str().unwrap_or("").to_string(), p["what"].as_str().unwrap_or("").to_string(), p["input"].as_str().unwrap_or("").to_string());
                     col.add(key, k as u64, || what, || json!({"input": input}));
@@ -366,7 +366,7 @@ pub fn run(ctx: &Ctx) -> i32 {
         }
     }
     ev.set("evaluations", json!(evals)); ev.set("returned_value", json!(oks)); ev.set("returned_error", json!(errs)); ev.set("enumerated_cases", json!(cases));
-    ev.set("distinct_nontrivial", json!((oks.min(1) + errs.min(1) + col.len() as u64).max(2)));
+    ev.set("distinct_nontrivial", json!((all_buckets.len() as u64 + col.len() as u64).max(2)));
     ev.set("growth_measurements", json!(growth));
     ev.set("children", json!(n));
     ev.set("rule", json!("(a) ALL strings of length <= L over the 14-symbol class alphabet at: 4 header parsers (+Display), parse_from_block4 of 30 types, the 114 SwiftField::parse / parse_with_variant, parse_block4_fields, normalize_field_tag, extract_base_tag, extract_field_content, extract_block4, utils, and (short strings) parse_auto / typed parse / parse_with_errors / extract_block(0..=6) / parse_mt / validate_mt; (b) for one maximal message per type: every byte-prefix truncation and every single-position substitution by each of 8 special characters (2-byte letter, Unicode digit, NUL, 4-byte emoji, braces, colon, LF) through the message entry points, and block 4 alone through parse_from_block4; every returned value is serialised, validated and JSON-round-tripped, every error rendered (Display, debug_report, brief_message, format_with_context); (c) header strings of every length 0..60 with every single-position substitution; (d) the JSON of each maximal message with every leaf replaced by 9 values of other JSON types through from_value and publish_mt; (e) 9 pathological families at sizes 2^10..2^17 (quick) / 2^20 (thorough) timed in child processes. distinct = outcome classes"));
